@@ -14,10 +14,13 @@ ENTRY = dict(
                   "name rule for 'has a counterpart' in the runner: same name modulo first-letter case, plus Raw~original "
                   "(both hello messages), Ems~extendedMasterSecret, Prfv2~prf"],
     assumes=["func values, hash objects, key pointers and times are opaque identities",
-             "reparse theorem: the re-marshal succeeds (no length prefix overflows), stated as a premise",
+             "input byte strings consist of bytes (bytes_ok: every element < 256)",
              "clientHelloMsg.marshalMsg modelled for echInner=false only"],
     level_text="Proof (structural, unbounded) of both round trips for every conversion pair on every field that has a counterpart, "
                "with the fields without counterpart listed by a theorem over field tables that the runner compares with reflect on "
-               "every run; proof of Unmarshal->Marshal = input; reparse stability proved for every accepted input on the modelled "
-               "parser (see notes/C31.md for what is partial).",
+               "every run; proof of Unmarshal->Marshal = input; proof, for every byte string the modelled parser accepts (all 19 known "
+               "extensions, no well-formedness premise), that the parsed values are well-formed and that clear Raw -> Marshal -> parse "
+               "gives equal field values whenever the re-marshal succeeds. The statement without that condition is refuted by a "
+               "machine-checked witness (renegotiation SCSV + a full 65535-byte extension block: the re-marshal overflows the "
+               "extension-block length), replayed on the real code by the runner on every check (finding remarshal/scsv-ext-block-overflow).",
 )
